@@ -42,34 +42,49 @@ def c06(res, thorough):
 
 
 def c07(res, thorough):
-    base_cov(res, ["memory orders", "back-off timing", "no atomic-step model of the Vyukov queue yet: decided by histories against Spec.bfifo (capacity = the object's own capacity())",
+    base_cov(res, ["memory orders", "back-off timing", "Algo/Vyukov: Lean machine of enqueue_with/dequeue_with (capacity 2^k, any k >= 1, any number of threads) proved linearizable to Spec.bfifo for all schedules, with full/empty instants, position bounds, no-overwrite and cell ownership; "
+                   "tied by trace conformance (every atomic load/store/CAS of m_posEnqueue, m_posDequeue and the cell sequences, values included, and every result) and by histories against Spec.bfifo; "
+                   "unbounded positions (no 2^64 wrap), weak CAS never fails spuriously; the single-consumer front/pop_front path has no model and is decided by histories only",
                    "capacity 1 is outside the property's quantifier (2..8) and outside the queue's own precondition"],
-             partial=["linearizability as a theorem about an algorithm model: not proved"])
-    lean_step(res, "CdsVerif.Props.C07", thorough)
+             partial=["single_consumer front()/pop_front(): no algorithm model"])
+    lean_step(res, ["CdsVerif.Props.C07", "CdsVerif.Props.C07Vyukov"], thorough)
+    # tie A: the Lean machine whose linearizability is proved (Algo/Vyukov) must accept the real traces step by step
+    for v in ("dyn", "static2", "static4", "static8", "idyn"):
+        tie_A(res, "vyukov", "vyukov", [{"args": ["--mode", "mixed", "--threads", "4", "--ops", "5", "--variant", v], "cases": 6000 if thorough else 600},
+                                        {"args": ["--mode", "enum2" if thorough else "enum1", "--threads", "2", "--ops", "3", "--variant", v], "cases": 6 if thorough else 2}])
     tie_H(res, "vyukov", hist_runs(thorough, 4, 6, (12, 24), (3000, 40000)))
 
 
 def c10(res, thorough):
     base_cov(res, ["memory orders", "FC wait strategies other than backoff", "std::deque / boost deque themselves",
-                   "the flat-combining kernel is judged by C23"],
-             partial=["linearizability of the concurrent FCDeque follows from the batch theorem plus C23's exactly-once/mutual-exclusion clause, which is decided on explored schedules"])
-    lean_step(res, "CdsVerif.Props.C10", thorough)
+                   "the flat-combining kernel is judged by C23",
+                   "Algo/FC/Batch is a hand transcription of FCDeque::fc_process / fc_apply (fixed batch: requests arriving during the walk are not modelled); C10_batch_refines / C10_session_refines / C10_collide_rule are theorems about it; "
+                   "it is tied to the code by the deque client's histories under the elimination variants (every collision the real code performs must be explained by Spec.deque)"],
+             partial=["linearizability of the concurrent FCDeque = batch theorem (proved) + kernel mutual exclusion / exactly-once (proved for the kernel model Algo/FC/Kernel, see C23) + the composition of the two, which is not a Lean theorem and is decided on explored schedules"])
+    lean_step(res, "CdsVerif.Props.C10", thorough)       # imports Algo/FC/Batch: the elimination pass and batch application, transcribed from fc_process/fc_apply
     tie_H(res, "deque", hist_runs(thorough, 3, 4, (8, 16), (2500, 30000)), ignore_oracle=FC_ORACLE)
 
 
 def c11(res, thorough):
-    base_cov(res, ["memory orders", "std::priority_queue", "MSPriorityQueue: no atomic-step model yet; histories without push/pop overlap are generated by construction (pre-filled pops-only and pushes-only-then-drain)"],
+    base_cov(res, ["memory orders", "std::priority_queue", "MSPriorityQueue: no atomic-step model yet; histories without push/pop overlap are generated by construction (pre-filled pops-only and pushes-only-then-drain) and judged against Spec.maxpq; histories with overlap are judged by a conservation oracle only (every pushed item popped exactly once after a drain; a failed push implies capacity() items can have been present)"],
              partial=["MSPriorityQueue conservation/capacity as theorems about an algorithm model: not proved; decided on explored schedules"])
     lean_step(res, "CdsVerif.Props.C11", thorough)
     tie_H(res, "pqueue", hist_runs(thorough, 3, 4, (10, 20), (2500, 30000)), ignore_oracle=FC_ORACLE)
+    # push || pop overlap: no order is claimed, only conservation and "push fails only when full" (client-side oracle)
+    for v in ("mspq_mixed", "imspq_mixed"):
+        tie_H(res, "pqueue", [{"args": ["--mode", "mixed", "--threads", "4", "--ops", "4", "--variant", v], "cases": 12000 if thorough else 1200},
+                              {"args": ["--mode", "enum2" if thorough else "enum1", "--threads", "2", "--ops", "3", "--variant", v], "cases": 8 if thorough else 3}], label="pqueue-overlap")
 
 
 def c23(res, thorough):
     base_cov(res, ["memory orders", "wait strategies other than backoff (they add only wake-ups)", "boost::thread_specific_ptr (thread exit is driven by resetting the kernel's TLS slot under the scheduler, so the 'removed' store is a scheduling point)",
-                   "no atomic-step model of the kernel yet: exactly-once and response-after-execution are decided through the containers' histories (a request executed twice, never, or answered early breaks linearizability of the queue/deque/priority queue built on it); "
+                   "Algo/FC/Kernel: 28-pc atomic-step machine of acquire_record / publish / combine / try_combining / combining / combining_pass / compact_list (first loop) / wait_for_combining / release_record, any number of threads, compact factor and pass count; "
+                   "KInv (18 clauses) proved inductive; C23_mutex, C23_exactly_once, C23_response_after_exec, C23_pending_not_executed, C23_owner_republishes are theorems about it. Simplifications: publication list as a set with atomic link/unlink, index-order walk, one pre-allocated record per thread, no thread exit / removed state / freeing loop, no batch_combine / invoke_exclusive. "
+                   "The machine is a hand model; it is tied to the code through the containers' histories (a request executed twice, never, or answered early breaks linearizability of the queue/deque/priority queue built on it), not by trace replay; "
                    "reclamation is decided by a quarantining allocator that checks, at the moment a publication record is freed, whether it is still reachable from the publication list"],
-             partial=["C23 clauses as theorems about a kernel model: not proved; decided on explored schedules"])
-    lean_step(res, "CdsVerif.Props.C23", thorough)
+             partial=["liveness of a deactivated request (only the safety form and the two enabling facts are proved)", "record reclamation clause: not in the kernel model; decided by the quarantining allocator on explored schedules",
+                      "kernel model not tied by trace replay"])
+    lean_step(res, ["CdsVerif.Props.C23", "CdsVerif.Props.C23Batch", "CdsVerif.Props.C23Kernel"], thorough)
     n = 12000 if thorough else 1500
     for client, variants in (("queue", ["fcqueue", "fcqueue_elim", "ifcqueue", "ifcqueue_elim"]), ("deque", ["fcdeque_std", "fcdeque_std_elim"]), ("pqueue", ["fcpq"])):
         for v in variants:
